@@ -17,7 +17,7 @@ EXPLANATION = (
     "by a raw String; (R4) keyword / built-in name recognition goes through cmp_str or "
     "eq_ignore_ascii_case; (R5) exactly the CR[LF] and LF line endings are recognised; (R6) the "
     "lexer never matches an ASCII letter constant exactly; (R7) two characters of program text are "
-    "never compared (order or equality) without case folding; (R10) every parser function that recognises the end of a line as the end of something recognises a colon too, or is tabled with the reason a colon is no alternative there; (R11) no token rule of the lexer raises a fatal error, because the lexer also tokenises comment and string text; (R12) every use of the one-token end-of-statement lookahead skips optional blanks first; (R13) the guard of the CR LF look-ahead in create_row_col_view is exactly `the next character exists` (not stronger); (R14) the parenthesis-only parser is used by the list of primary expressions only, so an operand that starts with `(` directly after a keyword is still a whole expression; (R15) every parser that consumes a line end as a separator is followed by the repetition that skips blank lines and indentation; (R16) the label parser accepts the name and the colon only when adjacent (no optional part before the colon in its combinator type), so `Name : Next` stays a call followed by a separator.")
+    "never compared (order or equality) without case folding; (R10) every parser function that recognises the end of a line as the end of something recognises a colon too, or is tabled with the reason a colon is no alternative there; (R11) no token rule of the lexer raises a fatal error, because the lexer also tokenises comment and string text; (R12) every use of the one-token end-of-statement lookahead skips optional blanks first; (R13) the guard of the CR LF look-ahead in create_row_col_view is exactly `the next character exists` (not stronger); (R14) the parenthesis-only parser is used by the list of primary expressions only, so an operand that starts with `(` directly after a keyword is still a whole expression; (R15) every parser that consumes a line end as a separator is followed by the repetition that skips blank lines and indentation; (R16) the label parser accepts the name and the colon only when adjacent (no optional part before the colon in its combinator type), so `Name : Next` stays a call followed by a separator; (R17) only the functions the Eol token is made of, and the row/column table, contain a CR or LF character constant - nothing else decides where a line ends.")
 NOT_DECIDED = [
     "equality of parse trees under layout transformations (blanks, comments, colon vs newline)",
     "row counting in create_row_col_view beyond the CR / LF guards and the tightness of the CR LF look-ahead guard (R13)",
@@ -714,6 +714,65 @@ def r16_label_is_name_then_colon(ctx, rule="C09.R16"):
     ctx.require(rule, 1)
 
 
+def r17_one_definition_of_line_end(ctx, rule="C09.R17"):
+    """`line endings never change meaning`: CR, LF and CR LF are one kind of token (Eol) made in one
+    place of the lexer, and counted in one place (the row/column table).  Any other parser function
+    that mentions the characters CR or LF decides for itself where a line ends - a comment read `up to
+    the next LF` swallows the rest of a CR-only file.  In rusty_parser only the functions that the
+    Eol-token builder is made of, and the row/column table, contain a CR or LF character constant."""
+    prog = ctx.prog
+    builders = []
+    for f in prog.fns.values():
+        if f.crate != "rusty_parser" or "::tokens::" not in f.id or f.kind == "const":
+            continue
+        makes_eol = any(st["k"] == "assign" and st["r"].get("k") == "agg" and (st["r"].get("adt") or "").endswith("::TokenType")
+                        and st["r"].get("variant") == "Eol" for body in [f.body] + list(f.promoted) for blk in body.blocks for st in blk["s"])
+        if makes_eol and any((t.get("cpath") or "").split("::")[-1] == "to_token" for _b, t in f.body.calls()):
+            builders.append(prog.enclosing_fn(f) or f)
+    view = [f for f in prog.fns.values() if f.crate == "rusty_parser" and f.name == "create_row_col_view"]
+    if not builders or len(view) != 1:
+        raise CheckError("%s: Eol token builder (%d) / row-column table (%d) not found" % (rule, len(builders), len(view)))
+    allowed = {i for i in prog.reachable_from(builders) if i in prog.fns and prog.fns[i].crate == "rusty_parser"}
+    allowed |= {view[0].id} | {c.id for c in prog.closures_of(view[0])}
+
+    def char_consts(o, out):
+        if isinstance(o, dict):
+            k = o.get("k")
+            if isinstance(k, dict) and k.get("ty") in ("char", "&str", "&'static str") and isinstance(k.get("s"), str):
+                out.append(k)
+            for v in o.values():
+                char_consts(v, out)
+        elif isinstance(o, list):
+            for v in o:
+                char_consts(v, out)
+    n = 0
+    seen_allowed = 0
+    for f in sorted(prog.fns.values(), key=lambda f: f.id):
+        if f.crate != "rusty_parser" or f.kind == "const":
+            continue
+        out = []
+        for body in [f.body] + list(f.promoted):
+            char_consts(body.blocks, out)
+        hits = sorted({k["s"] for k in out if re.search(r"\\[nr]|\\u\{0*[ad]\}", k["s"])})
+        if not hits:
+            continue
+        owner = prog.enclosing_fn(f) or f
+        if f.id in allowed or owner.id in allowed:
+            seen_allowed += 1
+            continue
+        n += 1
+        name = owner.path.split("::", 1)[1]
+        ctx.violation(rule, "%s:%s" % (rule, name), f.loc,
+                      "%s contains the line-end character(s) %s: it decides on its own where a line ends instead of using "
+                      "the lexer's Eol token, so one of CR / LF / CR LF is treated differently here (a comment read up to "
+                      "the next LF swallows the rest of a CR-only file)" % (name, ", ".join(hits)))
+    if seen_allowed < 2:
+        raise CheckError("%s: the CR / LF constants of the lexer and the row table were not seen (%d)" % (rule, seen_allowed))
+    ctx.ok(rule, rule + ":only-lexer-and-row-table", builders[0].loc,
+           "%d functions with CR / LF constants, all part of the Eol token or the row/column table" % seen_allowed)
+    ctx.require(rule, 1)
+
+
 def run(ctx):
     common.install(ctx)
     r1_folding_pair(ctx)
@@ -734,3 +793,4 @@ def run(ctx):
     r14_parenthesis_is_only_a_primary(ctx)
     r15_line_end_is_followed_by_blank_skipping(ctx)
     r16_label_is_name_then_colon(ctx)
+    r17_one_definition_of_line_end(ctx)
